@@ -490,8 +490,9 @@ def extract_loopfn(repo, ent):
             g.append(ln(init) + '    ' + init.strip() + ';\n')
         g.append('    if (gh_lc_phase == 0) { __CPROVER_assert(%s_INV, "loop invariant holds on entry (base case)"); __CPROVER_assume(0); }\n' % P)
         g.append('    %s_HAVOC; __CPROVER_assume(%s_INV);\n' % (P, P))
+        g.append('    %s_FRAME_SNAPSHOT; unsigned long lc_decr_before = (%s_DECR); // before COND: it may have side effects\n' % (P, P))
         g.append(ln(cond) + '    if (' + cond.strip() + ')\n')
-        g.append('      { %s_FRAME_SNAPSHOT; unsigned long lc_decr_before = (%s_DECR);\n' % (P, P))
+        g.append('      {\n')
         g.append(ln(body) + body2 + '\n')
         g.append('      lc_continue: ;\n')
         if incr.strip():
